@@ -173,6 +173,11 @@ var tString = types.Typ[types.String]
 
 func (e *env) findPkg(name string) *types.Package {
 	w := e.vc.w
+	if path, ok := w.aliases[e.pkgPath][name]; ok {
+		if p := w.tpkgs[path]; p != nil {
+			return p
+		}
+	}
 	// prefer packages imported by the contract's package
 	if tp := w.tpkgs[e.pkgPath]; tp != nil {
 		for _, ip := range tp.Imports() {
@@ -629,7 +634,11 @@ func (e *env) call(x *ECall) *sym {
 		if len(x.Args) != 2 {
 			e.errf("%s(x, T)", x.F)
 		}
-		ty, err := vc.w.lookupType(strings.ReplaceAll(x.Args[1].String(), " ", ""), e.pkgPath)
+		tyText := strings.ReplaceAll(x.Args[1].String(), " ", "")
+		if sl, ok := x.Args[1].(*EStr); ok {
+			tyText = sl.V
+		}
+		ty, err := vc.w.lookupType(tyText, e.pkgPath)
 		if err != nil {
 			e.errf("%v", err)
 		}
@@ -637,9 +646,42 @@ func (e *env) call(x *ECall) *sym {
 			return &sym{t: eq("(itag "+a.t+")", fmt.Sprint(so.typeID(ty))), typ: tBool}
 		}
 		return &sym{t: e.f.unpackIface(ty, a.t), typ: ty}
+	case "isClosure":
+		// isClosure(f, "name"): statically true iff the function value is a closure of the named function
+		a := e.value(x.Args[0])
+		nm, ok := x.Args[1].(*EStr)
+		if !ok {
+			e.errf("isClosure(f, \"name\")")
+		}
+		if a.clos != nil && a.clos.fn != nil {
+			full := a.clos.fn.String()
+			pk := ""
+			if a.clos.fn.Pkg != nil {
+				pk = a.clos.fn.Pkg.Pkg.Path()
+			}
+			if relName(full, pk) == nm.V || full == nm.V {
+				return &sym{t: "true", typ: tBool}
+			}
+		}
+		return &sym{t: "false", typ: tBool}
+	case "wasAllocated":
+		// the object denoted now by the argument already existed in the old state
+		if e.old == nil {
+			e.errf("wasAllocated() needs an old state")
+		}
+		a := arg(0)
+		t := a.t
+		if so.sortOf(a.typ) == "Slice" {
+			t = "(sbase " + t + ")"
+		}
+		return &sym{t: "(select " + vc.hget(e.old, vc.allocKey()) + " " + t + ")", typ: tBool}
 	case "allocated":
 		a := arg(0)
-		return &sym{t: "(select " + vc.hget(e.cur, vc.allocKey()) + " " + a.t + ")", typ: tBool}
+		t := a.t
+		if so.sortOf(a.typ) == "Slice" {
+			t = "(sbase " + t + ")"
+		}
+		return &sym{t: "(select " + vc.hget(e.cur, vc.allocKey()) + " " + t + ")", typ: tBool}
 	case "visited":
 		// visited(loopOrdinal, key)
 		li := e.loopByOrdinal(x.Args[0])
@@ -759,6 +801,39 @@ func (vc *FnVC) emitAxiom(d *SpecDef) {
 	// translate into a scratch buffer first so that declarations triggered by the body precede the assert
 	body := e.boolExpr(d.Body)
 	if len(binders) > 0 {
+		// trigger: a set of spec-function applications over bound variables only that together mention
+		// every bound variable (keeps the instantiation of assumed axioms finite and predictable)
+		var cands []*ECall
+		collectUfuncApps(vc.w, d.Body, &cands)
+		bound := map[string]bool{}
+		for _, b := range d.Params {
+			bound[b.Name] = true
+		}
+		covered := map[string]bool{}
+		var pats []string
+		for _, c := range cands {
+			ok := true
+			adds := false
+			for _, a := range c.Args {
+				id, isId := a.(*EIdent)
+				if !isId || !bound[id.Name] {
+					ok = false
+					break
+				}
+				if !covered[id.Name] {
+					adds = true
+				}
+			}
+			if ok && adds {
+				pats = append(pats, e.rvalue(c).t)
+				for _, a := range c.Args {
+					covered[a.(*EIdent).Name] = true
+				}
+			}
+		}
+		if len(covered) == len(bound) && len(pats) > 0 {
+			body = "(! " + body + " :pattern (" + strings.Join(pats, " ") + "))"
+		}
 		vc.emit("(assert (forall (" + strings.Join(binders, " ") + ") " + body + "))")
 	} else {
 		vc.emit("(assert " + body + ")")
@@ -1007,4 +1082,35 @@ func (vc *FnVC) defineRec(d *SpecDef) *recInfo {
 	vc.emit(fmt.Sprintf("(define-fun-rec %s (%s) %s %s)", info.name, strings.Join(binders, " "), vc.w.so.sortOf(rty), body))
 	info.done = true
 	return info
+}
+
+
+func collectUfuncApps(w *World, x Expr, out *[]*ECall) {
+	switch x := x.(type) {
+	case *ECall:
+		if d := w.defs[x.F]; d != nil && d.Kind == "ufunc" {
+			*out = append(*out, x)
+		}
+		for _, a := range x.Args {
+			collectUfuncApps(w, a, out)
+		}
+	case *EBin:
+		collectUfuncApps(w, x.X, out)
+		collectUfuncApps(w, x.Y, out)
+	case *EUn:
+		collectUfuncApps(w, x.X, out)
+	case *ESel:
+		collectUfuncApps(w, x.X, out)
+	case *EIdx:
+		collectUfuncApps(w, x.X, out)
+		collectUfuncApps(w, x.I, out)
+	case *EOld:
+		collectUfuncApps(w, x.X, out)
+	case *EQuant:
+		collectUfuncApps(w, x.Body, out)
+	case *EIte:
+		collectUfuncApps(w, x.C, out)
+		collectUfuncApps(w, x.A, out)
+		collectUfuncApps(w, x.B, out)
+	}
 }
